@@ -867,10 +867,21 @@ pub fn run(tier: &str, seed: u64) -> i32 {
         body_forms: crate::families::ALL_BODY_FORMS.to_vec(),
         param_forms: crate::families::ALL_PARAM_FORMS.to_vec(),
     };
-    let (gall, _, _) = enumerate(&dg, if thorough { 2 } else { 1 }, 2_000_000);
+    let (gall, _, _) = enumerate(&dg, 2, 2_000_000);
+    // quick tier: depth 1, and of depth 2 the definitions with one field that the CompactAs rule or the marker
+    // rule looks at (an unsigned integer, a compact field, a PhantomData) and one instantiation - there the
+    // parameter is unused and the item ends in a marker field
+    let special = |f: &crate::spm::Field| {
+        matches!(f.ty, crate::spm::Ty::Phantom(_) | crate::spm::Ty::Prim(_) | crate::spm::Ty::Compact(_)) || f.compact
+    };
     let gcases: Vec<SwitchCase> = gall
         .iter()
         .filter(|(_, s)| crate::checks::c05::wf5_ok(s))
+        .filter(|(_, s)| {
+            thorough
+                || s.fields.len() + s.insts.len() <= 1
+                || (s.fields.len() == 1 && s.insts.len() == 1 && special(&s.fields[0]))
+        })
         .map(|(_, s)| SwitchCase {
             prog: s.program(),
             subcube: true,
@@ -878,7 +889,7 @@ pub fn run(tier: &str, seed: u64) -> i32 {
         .collect();
     let n_sub = Vertex::generic_subcube().len();
     let mut st = sweep(
-        &format!("D-generic(construction depth <= {}) x generic sub-cube ({n_sub} vertices: alloc x docs x codec x root; every edge a transition)", if thorough { 2 } else { 1 }),
+        &format!("D-generic(construction depth <= {}; quick: depth 2 only for single unsigned / compact / marker fields) x generic sub-cube ({n_sub} vertices: alloc x docs x codec x root; every edge a transition)", if thorough { 2 } else { 1 }),
         &gcases,
         Duration::from_secs(if thorough { 1200 } else { 150 }),
         |c| json!({"program": c.prog.to_source()}),
